@@ -237,7 +237,8 @@ def run(chk):
 
   chk.rule('C12-R3', 'renaming covers every defined and made predicate of an '
            'imported file (only @annotations and ++? are exempt) and uses the '
-           "imported file's own prefix for imported names", min_instances=4)
+           "imported file's own prefix for imported names; the renaming walker "
+           'is total', min_instances=6)
   f = FnView(repo, PF)
   loops = [x for x in walk_local(f.fi.node) if isinstance(x, ast.For) and
            'DefinedPredicates' in norm(x.iter)]
@@ -283,6 +284,19 @@ def run(chk):
   chk.ob('C12-R3', ok, None, "imported names are renamed with the imported file's prefix",
          'uses of an imported predicate are renamed with %s' % (norm(src[0], 60) if src else '?'),
          fi=f.fi)
+
+  rp = FnView(repo, 'parse.RenamePredicate')
+  rets = rp.returns()
+  early = [r for n, r in rets if rp.cfg.reachable(n) - {n} - {rp.cfg.exit} or
+           any(isinstance(rp.cfg.stmt[h], (ast.If, ast.For, ast.While)) for h, pol in rp.cfg.header_of(n))]
+  chk.ob('C12-R3', len(rets) == 1 and not early, None,
+         'RenamePredicate walks the whole tree (no early exit)',
+         'RenamePredicate can return before visiting every child (`%s`): nodes '
+         'it skips keep the unprefixed name and collide across files' % (
+             norm(early[0], 60) if early else 'several returns'), fi=rp.fi)
+  rec = [c for n, c in rp.all_calls() if call_tail(c) == 'RenamePredicate']
+  chk.ob('C12-R3', len(rec) >= 2, None, 'RenamePredicate recurses into dict values and list elements',
+         'the walker no longer descends into both dicts and lists', fi=rp.fi)
 
   chk.rule('C12-R4', 'import diagnostics: undefined import, unused import, '
            'override of an imported predicate, missing file each raise '
